@@ -82,6 +82,11 @@ static WD_LABEL: AtomicPtr<u8> = AtomicPtr::new(std::ptr::null_mut());
 static WD_LABEL_LEN: AtomicUsize = AtomicUsize::new(0);
 static WD_LIMIT_MS: AtomicU64 = AtomicU64::new(10_000);
 
+/// Change the single-call limit of the in-process watchdog (isolated replays use 55 s).
+pub fn set_watchdog_limit(ms: u64) {
+    WD_LIMIT_MS.store(ms, Ordering::SeqCst);
+}
+
 fn now_ms(t0: Instant) -> u64 {
     t0.elapsed().as_millis() as u64 + 1
 }
